@@ -33,6 +33,8 @@ def run(ctx):
     for ivl in (range(1, 65) if thorough else [1, 7, 8, 11, 13, 16, 17, 32, 33, 64]):
         cases.append(mk(ivl=ivl, al=5, pl=37, tamper=1 if ivl in (1, 16, 17) else 0))
         cases.append(mk(ivl=ivl, ivf=1, al=16, pl=16))
+    for ivl in (17, 32, 33, 48, 64):
+        cases.append(mk(ivf=5, ivl=ivl, al=7, pl=33))       # IVs with an all-zero 16-byte block (or zero-padded tail) behind a non-zero one
     cases.append(mk(ivf=1, al=3, pl=40, tamper=1))          # 12-byte IV, all 0xff
     cases.append(mk(ivf=3, al=0, pl=33))                    # 12-byte IV ending ff ff ff ff
     cases.append(mk(ivf=2, al=20, pl=20))                   # all-zero IV (the repository test's)
